@@ -2,6 +2,8 @@ CONSTANTS
   N = 7
   K = 1
   Coupled = TRUE
+  B = 0
+  HCap = 0
 SPECIFICATION Spec
 INVARIANT NoDeadlock
 
